@@ -93,6 +93,15 @@ def run_case(ctx, nix, np, path, rng, rep):
             else:
                 dt = np.dtype([(n, "U100" if t == "text" else npdt[t]) for n, t in cols])
                 arr = np.array(rows, dtype=dt)
+                if len(cols) >= 2 and rng.random() < 0.5:
+                    # a selection of the fields of a wider record array in ANOTHER order (what rec[["y", "x"]] gives): the fields of
+                    # such an array are not laid out in the order of their names
+                    flags.add("field_selection")
+                    order = list(range(len(cols)))
+                    rng.shuffle(order)
+                    arr = arr[[cols[j][0] for j in order]]
+                    cols = [cols[j] for j in order]
+                    rows = [tuple(r[j] for j in order) for r in rows]
                 df = b.create_data_frame("df", "t", data=arr)
         except Exception as e:
             bad("create:%s:raises_%s" % (variant, type(e).__name__), error=repr(e))
@@ -150,6 +159,27 @@ def run_case(ctx, nix, np, path, rng, rep):
                         c2 = norm(df.read_cell(col_name=cn, row_idx=[ri]))
                         if not same(c2, rows[ri][ci]):
                             bad("read_cell_name:wrong:%s" % ctxt, after=tag, row=ri, col=cn, got=c2, expected=rows[ri][ci])
+                if len(rows) >= 2 and len(cols) >= 2:
+                    # several columns at once, a part of the rows that does not start at row 0 and may have a step, both layouts
+                    a0 = rng.randrange(0, len(rows))
+                    slc = slice(a0, rng.randint(a0, len(rows)), rng.choice([None, None, 2]))
+                    k = rng.randint(2, min(3, len(cols)))
+                    sub = sorted(rng.sample(range(len(cols)), k))
+                    exp_rows = [tuple(r[c] for c in sub) for r in rows[slc]]
+                    byname = rng.random() < 0.5
+                    kw = {"name": [cols[c][0] for c in sub]} if byname else {"index": sub}
+                    got = df.read_columns(slc=slc, group_by_cols=False, **kw)
+                    got_rows = [tuple(norm(x) for x in r) for r in got]
+                    if len(got_rows) != len(exp_rows) or any(not all(same(x, y) for x, y in zip(g, e)) for g, e in zip(got_rows, exp_rows)):
+                        bad("read_columns_multi:by_rows:wrong:%s" % ctxt, after=tag, slc=repr(slc), columns=sub, got=got_rows[:4], expected=exp_rows[:4])
+                    if len({cols[c][1] for c in sub}) == 1 and cols[sub[0]][1] != "text":
+                        gc_ = df.read_columns(slc=slc, group_by_cols=True, **kw)
+                        got_cols = [[norm(x) for x in col] for col in gc_]
+                        exp_cols = [[r[j] for r in exp_rows] for j in range(len(sub))]
+                        if len(got_cols) != len(exp_cols) or any(len(g) != len(e) or not all(same(x, y) for x, y in zip(g, e)) for g, e in zip(got_cols, exp_cols)):
+                            bad("read_columns_multi:by_columns:wrong:%s" % ctxt, after=tag, slc=repr(slc), columns=sub, got=got_cols[:3], expected=exp_cols[:3])
+                        ctx.count("multi_column_reads_grouped_by_columns")
+                    ctx.count("multi_column_reads")
                 if rows:
                     ri = rng.choice([0, len(rows) - 1])
                     r = [norm(x) for x in df.read_rows(ri)]
